@@ -312,8 +312,8 @@ def run_worker(I, N, limit, only=None):
     env = dict(os.environ, KV_REPO=repo, CARGO_NET_OFFLINE="true", CARGO_BUILD_JOBS="6")
     resf = OUT + "/results-%d.jsonl" % I
     done = set()
-    if os.path.exists(resf):
-        done = {json.loads(l)["id"] for l in open(resf)}
+    for rf in glob.glob(OUT + "/results-*.jsonl"):
+        done |= {json.loads(l)["id"] for l in open(rf)}
     n = 0
     for m in mine:
         if m["id"] in done:
